@@ -94,4 +94,14 @@ var props = map[string]propDef{
 		Thorough:       budget{Runs: 20000, Chunk: 100, Wall: 40 * time.Minute, PerChunkGrace: 5 * time.Minute},
 		MinimiseBudget: 60 * time.Second,
 	},
+	"C41": {
+		Binary: "dsim-store", Harness: "C41", Level: "exploration",
+		Rule: "each run = one seeded order of open (default with lock timeout / fail-fast / skip-timeout / both), write+commit, read, close and kill operations among 2-4 simulated processes (separate store object graphs, separate file descriptors, real flock) on one journaled directory, with torn journal tails and stale indexes planted while no writer is active; after every operation: at most one instance reports exclusive access; a contended open is read-only or, with fail-fast, ErrDatabaseLocked; Commit through a read-only instance fails; every root an instance shows was written by some writer and its chunk is readable; and the simulated OS's op log contains no create/write/truncate/rename/unlink attributed to a process that holds a read-only instance. One evaluation = one read verification. Non-trivial = at least one contended open; distinct by operation/outcome signature.",
+		Assumptions: []string{"processes are object graphs in one address space; a kill falls between operations (S0) and releases the process's descriptors and locks", "opening the LOCK file (O_CREATE) and fsync are not counted as modifying the directory"},
+		Real:        storeReal, Stub: storeStub, Persistence: "not used (process kill keeps the page cache: the directory stays as written)",
+		ExpectProbes:   []string{"open_exclusive", "open-read-only", "open-failfast-locked", "read_only_write_refused", "process-killed", "torn-journal-tail", "stale-index-installed", "writer_commit_ok"},
+		Quick:          budget{Runs: 400, Chunk: 25, Wall: 150 * time.Second, PerChunkGrace: 120 * time.Second},
+		Thorough:       budget{Runs: 20000, Chunk: 100, Wall: 40 * time.Minute, PerChunkGrace: 5 * time.Minute},
+		MinimiseBudget: 60 * time.Second,
+	},
 }
